@@ -74,7 +74,10 @@ func NewConstInt[T constraints.Signed](val T, w Width) Const {
 		val >>= 8
 	}
 
-	if val != 0 && (val != -1 || bs[len(bs)-1] < 128) {
+	// Bytes of val above w have to be the sign extension of the value
+	// stored in bs.
+	neg := len(bs) > 0 && bs[len(bs)-1] >= 128
+	if (neg && val != -1) || (!neg && val != 0) {
 		panic(fmt.Sprintf("value of type %T doesn't fit to value of width %d: %d",
 			val, w, valCopy))
 	}
